@@ -1,0 +1,62 @@
+//go:build verif
+// +build verif
+
+package monitor
+
+// Accessors for the correspondence harness of property C19 (statistics equal
+// the statistics of the recorded measures). Compiled with the build tag
+// "verif" only; nothing here is called by the package itself.
+
+// VerifUpdate stores one measure in this result set exactly as Update does
+// for a measure that arrived over a connection.
+func (s *Stats) VerifUpdate(name string, value float64, host int) {
+	s.Update(newSingleMeasureWithHost(name, value, host))
+}
+
+// VerifStored returns a copy of the values stored for a measure, in arrival
+// order, without computing anything (nil if the measure is unknown).
+func (s *Stats) VerifStored(name string) []float64 {
+	s.Lock()
+	defer s.Unlock()
+	v, ok := s.values[name]
+	if !ok {
+		return nil
+	}
+	v.Lock()
+	defer v.Unlock()
+	return append([]float64{}, v.store...)
+}
+
+// VerifCount returns the number of values stored over all measures.
+func (s *Stats) VerifCount() int {
+	s.Lock()
+	defer s.Unlock()
+	n := 0
+	for _, v := range s.values {
+		v.Lock()
+		n += len(v.store)
+		v.Unlock()
+	}
+	return n
+}
+
+// VerifUpdate hands one measure to the global statistics and to the buckets
+// exactly as the Listen loop does for a measure read from a connection.
+func (m *Monitor) VerifUpdate(name string, value float64, host int) {
+	m.update(newSingleMeasureWithHost(name, value, host))
+}
+
+// VerifInsertBucket is InsertBucket, but returns the error of BucketStats.Set.
+func (m *Monitor) VerifInsertBucket(index int, rules []string, stats *Stats) error {
+	return m.buckets.Set(index, rules, stats)
+}
+
+// VerifBucket is BucketStats.Get on the monitor's buckets.
+func (m *Monitor) VerifBucket(index int) *Stats {
+	return m.buckets.Get(index)
+}
+
+// VerifPort waits for the port Listen bound when SinkPort was 0.
+func (m *Monitor) VerifPort() uint16 {
+	return <-m.sinkPortChan
+}
